@@ -39,9 +39,10 @@ COMPONENTS = {
 ASSUMPTIONS = ['single thread, no schedule: the fault plan is the whole search space',
                'a failing example fails deterministically on every evaluation']
 
-KINDS = ['filter', 'filter_sub', 'value', 'key', 'index', 'notimpl']
+KINDS = ['filter', 'filter_sub', 'value', 'key', 'index', 'notimpl', 'base']
 CATCHES = ['filter', 'filter', 'value', ['filter', 'key'], ['value', 'key'], 'filter_sub',
-           ['filter', 'index'], 'index', ['value', 'notimpl'], []]
+           ['filter', 'index'], 'index', ['value', 'notimpl'], [], 'base', ['filter', 'base'],
+           'stopiter', ['value', 'stopiter']]
 
 
 def gen_desc(rng):
@@ -127,6 +128,10 @@ def gen(rng, tier, index):
              if s['op'] in ('map',) or s.get('map')]
     sites = [s for s in sites if s]
     catch = rng.choice(CATCHES)
+    # a StopIteration can only be judged where it is caught: one that is not
+    # arrives as RuntimeError (PEP 479) out of the library's generators
+    KINDS_ = KINDS + (['stopiter', 'stopiter'] if 'stopiter' in
+                      (catch if isinstance(catch, list) else [catch]) else [])
     # key iteration of catch() looks examples up by key: with duplicate keys
     # (index lists with repeats) the library refuses loudly, not generated
     firsts = [e[0] for e in ((a.elems if not reshuffled else a.elems_below) or []) if e]
@@ -136,23 +141,23 @@ def gen(rng, tier, index):
     plans = []
     if ids:
         site = rng.choice(sites)
-        kind = rng.choice(KINDS)
+        kind = rng.choice(KINDS_)
         plans += [[{'stage': site, 'pos': p, 'exc': kind}] for p in ids]
         for _ in range(4):
             k = rng.randrange(2, 5)
             plans.append([{'stage': rng.choice(sites), 'pos': rng.choice(ids),
-                           'exc': rng.choice(KINDS)} for _ in range(k)])
+                           'exc': rng.choice(KINDS_)} for _ in range(k)])
     plans.append([])
     if ids and sites:
         # every example fails with the same kind (nothing, or everything, is left)
         site_all = rng.choice(sites)
-        kind_all = rng.choice(KINDS)
+        kind_all = rng.choice(KINDS_)
         plans.append([{'stage': site_all, 'pos': p, 'exc': kind_all} for p in ids])
     if ids:
         # examples that fail in one pass only (flaky loader)
         for _ in range(2):
             plans.append([{'stage': rng.choice(sites), 'pos': rng.choice(ids),
-                           'exc': rng.choice(KINDS), 'pass': rng.randrange(2)}
+                           'exc': rng.choice(KINDS_), 'pass': rng.randrange(2)}
                           for _k in range(rng.randrange(1, 3))])
     cases = []
     nout = len((a.elems if not reshuffled else a.elems_below) or [])
@@ -241,7 +246,7 @@ def run(case):
                     if type(e) is W.InjectedFilterSub and ldc.FilterException in caught:
                         probes['subclass_caught'] = 1
                     continue
-                except Exception as e:
+                except BaseException as e:
                     terminal = (W.exc_kind_of(e), W.norm(e.args))
                     break
                 if case['down']:
@@ -275,7 +280,7 @@ def run(case):
                     k += 1
             except StopIteration:
                 pass
-            except Exception as e:
+            except BaseException as e:
                 term = (W.exc_kind_of(e), W.norm(e.args))
                 same = any(e is r for r in ctx.raised)
             runs.append((out, term, same))
